@@ -6,6 +6,8 @@ mkdir -p evidence replays
 S=$(mktemp -d)
 trap 'rm -rf "$S"' EXIT
 cp specs/*.tla specs/*.cfg "$S"/ 2>/dev/null || true
+# Units.tla extends UnitsData.tla, which every check generates from the live module
+PYTHONPATH="/repo/src:$PWD" /venv/bin/python -W ignore -c "from harness import units_data; open('$S/UnitsData.tla','w').write(units_data.generate()[0])"
 fail=0
 for f in "$S"/*.tla; do
   b=$(basename "$f")
